@@ -81,6 +81,15 @@ class World:
             a_lat, a_lon = lat, lon
             if args == "dec":
                 a_lat, a_lon = an.DECAngle(lat), an.DECAngle(lon)
+            elif args in ("hp", "gon", "dms", "ddm"):
+                # an angle OBJECT of that class; the position it denotes (alpha: exact value of its fields) is what the exact
+                # projection is evaluated at - the conversion into the notation moves it by up to 1e-13 deg
+                mk = {"hp": an.dec2hpa, "gon": an.dec2gona, "dms": an.dec2dms, "ddm": an.dec2ddm}[args]
+                a_lat, a_lon = mk(lat), mk(lon)
+                from harness import alpha
+                dlat, dlon = alpha.angle_deg(a_lat), alpha.angle_deg(a_lon)
+                o["lat"], o["lon"] = fix.enc(dlat), fix.enc(dlon)
+                o["latf"], o["lonf"] = float(dlat), float(dlon)
             hemi, zone, e, n, psf, conv = cv.geo2grid(a_lat, a_lon, zonearg, E, P)
             o["fwd"] = {"hemi": hemi, "zone": int(zone), "e": fix.enc(e), "n": fix.enc(n), "psf": fix.enc(psf), "conv": fix.enc(conv),
                         "hex": hx(hemi, zone, e, n, psf, conv)}
@@ -210,11 +219,12 @@ class World:
             ev["o"] = {"latf": lat, "lonf": lon, "zonearg": zone, "ell": {"name": ell[0]}, "prj": {"name": prj[0]}}
         return ev
 
-    def tma_event(self, lat, lon, zone, ell, prj, tag):
-        """forward + inverse at ANY latitude / longitude (exact TM oracle with the specification's sines and cosines)"""
-        ev = {"k": "TMA", "exc": "", "tag": tag}
+    def tma_event(self, lat, lon, zone, ell, prj, tag, args="float"):
+        """forward + inverse at ANY latitude / longitude (exact TM oracle with the specification's sines and cosines);
+        args: the form in which latitude and longitude are handed over (float or an object of one of the five angle classes)"""
+        ev = {"k": "TMA", "exc": "", "tag": tag, "args": args}
         try:
-            o = self.observe(lat, lon, zone, ell, prj)
+            o = self.observe(lat, lon, zone, ell, prj, args)
             o["n0"] = fix.enc(1.0 / (2.0 * float(ell[1].inversef) - 1.0))
             ev["o"] = o
         except Exception as ex:
